@@ -33,7 +33,7 @@ func implPass(raw json.RawMessage) (any, error) {
 }
 
 var passOpts = world.GenOpts{PreferOnSpreadKey: 0.35, PodEventsFirst: 0.3, InterPod: 0.75, NodeAffinity: 0.15, Existing: 0.6, Limits: 0.0, MaxPods: 6,
-	Namespaces: 0.3, MatchLabelKeys: 0.25, DefaultSpread: 0.12, ListFaults: 0.08}
+	Namespaces: 0.3, MatchLabelKeys: 0.25, DefaultSpread: 0.12, ListFaults: 0.08, ZoneHoles: 0.08, TaintValues: 0.07}
 
 // errClass canonicalises a pass error (messages carry object names and injected-fault texts: keep them, they are deterministic)
 func errClass(err error) string { return err.Error() }
@@ -110,6 +110,44 @@ func constraintLabels(s *world.Scenario) []string {
 	}
 	for _, f := range s.ListFaults {
 		add("list-fault-" + f.Kind)
+	}
+	for _, p := range s.Pods {
+		if len(p.Name) > 4 && p.Name[:4] == "pin-" {
+			add("pod-pinned-to-a-zone-beside-a-spread-set")
+		}
+		if len(p.Affinity) > 0 {
+			for _, a := range p.Affinity {
+				if a.Anti && a.Required {
+					add("pending-pod-required-anti-affinity")
+				}
+			}
+		}
+	}
+	vals := map[string]string{}
+	for _, np := range s.Pools {
+		for _, t := range np.Taints {
+			if v, ok := vals[t.Key+":"+t.Effect]; ok && v != t.Value {
+				add("nodepool-taints-differ-in-value-only")
+			}
+			vals[t.Key+":"+t.Effect] = t.Value
+		}
+	}
+	if len(s.ITs) > 1 {
+		zonesOf := func(it world.IT) string {
+			z := map[string]bool{}
+			for _, of := range it.Offerings {
+				if of.Available {
+					z[of.Zone] = true
+				}
+			}
+			return fmt.Sprint(z["z1"], z["z2"], z["z3"])
+		}
+		for _, it := range s.ITs[1:] {
+			if zonesOf(it) != zonesOf(s.ITs[0]) {
+				add("instance-types-offered-in-different-zone-sets")
+				break
+			}
+		}
 	}
 	for _, n := range s.Nodes {
 		for _, p := range n.Pods {
